@@ -1,6 +1,6 @@
 --------------------------- MODULE GenClientAddr ---------------------------
 EXTENDS ClientAddr, Json
-Emit == done => PrintT(ToJson([fam |-> fam, trusted |-> trusted, xri |-> XriVals, xrp |-> XrpVal, xff |-> XffVal,
+Emit == done => PrintT(ToJson([fam |-> fam, trusted |-> trusted, hist |-> hist, xri |-> XriVals, xrp |-> XrpVal, xff |-> XffVal,
                                cls |-> [xri |-> xri, xrp |-> xrp, xff |-> xff],
                                expP |-> ExpP, expM |-> OutM]))
 ============================================================================
